@@ -59,8 +59,11 @@ def run_one(pid, m, repo):
                 shutil.copytree(os.path.join(repo, sub), os.path.join(tmp, sub),
                                 ignore=shutil.ignore_patterns("__pycache__"))
         if m.get("alpha"):
-            from .alpha import rename_tree
-            rename_tree(os.path.join(tmp, "torchtt"), m["alpha"])
+            from .alpha import rename_tree, rename_params
+            if m.get("params"):
+                rename_params(os.path.join(tmp, "torchtt"), m["alpha"])
+            else:
+                rename_tree(os.path.join(tmp, "torchtt"), m["alpha"])
         elif "patch" in m:
             p0 = subprocess.run(["git", "apply", "--unsafe-paths", f"--directory={tmp}", m["patch"]], cwd="/", capture_output=True, text=True)
             if p0.returncode != 0:
@@ -168,7 +171,8 @@ def run(pids, jobs=16, reduced=False):
         else:
             ms = ms + load_seeds(pid) + load_benign(pid)
         if ms and not reduced:
-            ms = ms + [dict(name="alpha-rename-all-locals", alpha="_r", expect="clean")]
+            ms = ms + [dict(name="alpha-rename-all-locals", alpha="_r", expect="clean"),
+                       dict(name="alpha-rename-private-and-dunder-parameters", alpha="_p", params=True, expect="clean")]
         work += [(pid, m) for m in ms]
     if not work:
         print("[ttsa selftest] no mutants registered for", ",".join(pids))
